@@ -458,6 +458,20 @@ def check_typed_pair(res, a, b, ta, tb):
         res.nontriv(('typed', a, b, ta, tb))
 
 
+def check_huge_center(res, a):
+    from regions import RegionBoundingBox
+    res.transitions += 1
+    case = {'op': 'huge_center', 'a': list(a)}
+    try:
+        c = RegionBoundingBox(*a).center
+    except Exception as exc:      # noqa: BLE001
+        _V(res, 'typed_raises', case, f'center of {a} raised {type(exc).__name__}: {exc}')
+        return
+    want = (float(Fraction(a[2] + a[3] - 1, 2)), float(Fraction(a[0] + a[1] - 1, 2)))
+    if (float(c[0]), float(c[1])) != want:
+        _V(res, 'center_wrong', case, f'center of {a} is {tuple(c)}, the correctly rounded midpoint of the limits is {want}', list(want), repr(c))
+
+
 def check_typed_extremes(res, t):
     """Limits near the ends of a narrow numpy integer type: a valid box whose span exceeds the type's range is accepted
     (with the right shape), limits in the wrong order are rejected with ValueError."""
@@ -633,6 +647,16 @@ def run_shard(shard, tier, seed):
                         res.evaluations += 2
                         check_from_float(res, (lo, hi, -0.5, 0.5))
                         check_from_float(res, (0.25, 0.75, lo, hi))
+        # a lower corner far away (so that anything computed relative to it has lost the low bits) and an upper corner near the
+        # origin a hair beyond / before a pixel edge
+        for lo_far in (-8192.25, -1048576.25, -(2.0 ** 33) - 0.25, -(2.0 ** 45) - 0.5):
+            for hi_b in (0.5, 3.5, -0.5, 0.0):
+                for e2 in epss:
+                    hi = hi_b + e2
+                    res.states += 1
+                    res.evaluations += 2
+                    check_from_float(res, (lo_far, hi, -0.5, 0.5))
+                    check_from_float(res, (0.25, 0.75, lo_far, hi))
         # the same with extended-precision limits closer to the edge than a double can express
         if np.finfo(np.longdouble).eps < 1e-18:
             ld = np.longdouble
@@ -685,6 +709,12 @@ def run_shard(shard, tier, seed):
                         res.states += 1
                         res.evaluations += 1
                         check_typed_pair(res, a, b, ta, tb)
+        # ... and the centre of such a box is the correctly rounded midpoint of its limits (when the midpoint is a double, exactly it)
+        for m in (2 ** 53 + 1, -(2 ** 53) - 1, 2 ** 54 + 2, 2 ** 60 + 4):
+            for (nx, ny) in ((3, 3), (5, 1), (1, 9), (4, 2)):
+                res.states += 1
+                res.evaluations += 1
+                check_huge_center(res, (m, m + nx, -m, -m + ny))
         res.axis('corner_magnitude', 'beyond 2^52')
         for t in ('int8', 'int16', 'int32', 'uint8', 'uint16', 'uint32'):
             res.states += 1
@@ -718,6 +748,8 @@ def replay(case):
         check_triple(res, tuple(case['a']), tuple(case['b']), tuple(case['c']))
     elif op == 'box':
         check_box(res, tuple(case['a']), tname=case.get('t'))
+    elif op == 'huge_center':
+        check_huge_center(res, tuple(case['a']))
     elif op == 'slices':
         check_slices(res, tuple(case['a']), tuple(case['shape']), tname=case.get('t'))
     elif op == 'from_float':
